@@ -307,3 +307,5 @@ def check(ctx):
     check_recover(ctx)
     check_snapshot(ctx)
     check_current(ctx)
+    from . import c02
+    c02.check_manifest(ctx)    # CURRENT always names a complete MANIFEST
